@@ -745,6 +745,64 @@ func TestVerifC12_blstower(t *testing.T) {
 	r.Count("bls12381.Cyclo6.elements", len(gE))
 	r.Count("bls12381.HardExponentiation", nhard)
 	r.RequireCounter("bls12381.Cyclo6.elements", 10)
+	// ---------- predicates against every one-bit neighbour in the Montgomery-domain words ----------
+	{
+		R := bf.Pow2(384)
+		towerBases := func(lay bf.Layout) []bf.Operand {
+			n := lay.Coords()
+			mk := func(g func(i int) *big.Int) *big.Int {
+				cs := make([]*big.Int, n)
+				for i := range cs {
+					cs[i] = g(i)
+				}
+				return bf.Pack(bf.TowerWidth, cs...)
+			}
+			return []bf.Operand{
+				{V: mk(func(int) *big.Int { return new(big.Int) }), Name: "0"},
+				{V: mk(func(i int) *big.Int { return big.NewInt(int64(1 &^ min(i, 1))) }), Name: "1"},
+				{V: mk(func(int) *big.Int { return pm1 }), Name: "all p-1"},
+				{V: mk(func(i int) *big.Int { return ps(500 + i) }), Name: "pseudo"},
+			}
+		}
+		isOneC := func(c []*big.Int) bool {
+			if c[0].Cmp(big.NewInt(1)) != 0 {
+				return false
+			}
+			for _, x := range c[1:] {
+				if x.Sign() != 0 {
+					return false
+				}
+			}
+			return true
+		}
+		type extra = map[string]struct {
+			Do  func(x bf.Elem) bool
+			Ref func(coords []*big.Int) bool
+		}
+		sweep := func(f *bf.Field, lay bf.Layout, isZero func(x bf.Elem) bool, isEq func(a, b bf.Elem) bool, ex extra) {
+			f.CheckBitFlips(r, bf.BitFlip{Coords: lay.Coords(), Width: bf.TowerWidth, Bits: 384, P: P, R: R, Limit: P, IsZero: isZero, IsEqual: isEq, Extra: ex}, towerBases(lay))
+			r.RequireCounter(f.Name+".predicates.one-bit-neighbours", int64(4*lay.Coords()*380))
+		}
+		sweep(f2, bf.LayFp2, func(x bf.Elem) bool { return e2(x).IsZero() == 1 }, func(a, b bf.Elem) bool { return e2(a).IsEqual(e2(b)) == 1 }, nil)
+		sweep(f4, bf.LayFp4, func(x bf.Elem) bool { return e4(x).IsZero() == 1 }, func(a, b bf.Elem) bool { return e4(a).IsEqual(e4(b)) == 1 }, nil)
+		sweep(f6, bf.LayFp6, func(x bf.Elem) bool { return e6(x).IsZero() == 1 }, func(a, b bf.Elem) bool { return e6(a).IsEqual(e6(b)) == 1 }, nil)
+		sweep(f12, bf.LayFp12, func(x bf.Elem) bool { return e12(x).IsZero() == 1 }, func(a, b bf.Elem) bool { return e12(a).IsEqual(e12(b)) == 1 }, extra{
+			"Cyclo6.IsIdentity":    {Do: func(x bf.Elem) bool { return (*Cyclo6)(e12(x)).IsIdentity() == 1 }, Ref: isOneC},
+			"URoot.IsIdentity":     {Do: func(x bf.Elem) bool { return (*URoot)(e12(x)).IsIdentity() == 1 }, Ref: isOneC},
+			"Cyclo6.IsEqual(copy)": {Do: func(x bf.Elem) bool { c := *e12(x); return (*Cyclo6)(e12(x)).IsEqual((*Cyclo6)(&c)) == 1 }, Ref: func([]*big.Int) bool { return true }},
+		})
+		// Cyclo6 / URoot equality on the same neighbours (separate pass so that the keys name the type)
+		fcy := c12TowerField(bf.LayFp12, func() bf.Elem { return new(Fp12) })
+		fcy.Name = "bls12381.Cyclo6"
+		fcy.CheckBitFlips(r, bf.BitFlip{Coords: 12, Width: bf.TowerWidth, Bits: 384, P: P, R: R, Limit: P,
+			IsEqual: func(a, b bf.Elem) bool {
+				// "either type says equal": must be false for distinct residues
+				return (*Cyclo6)(e12(a)).IsEqual((*Cyclo6)(e12(b))) == 1 || (*URoot)(e12(a)).IsEqual((*URoot)(e12(b))) == 1
+			}}, towerBases(bf.LayFp12)[:2])
+		sweep(fc, bf.LayFp12Cubic, nil, func(a, b bf.Elem) bool { return ec(a).IsEqual(ec(b)) == 1 }, nil)
+		fl := c12TowerField(bf.LayLine, func() bf.Elem { return new(LineValue) })
+		sweep(fl, bf.LayLine, func(x bf.Elem) bool { return x.(*LineValue).IsZero() == 1 }, nil, nil)
+	}
 	for i := 0; i < 3; i++ {
 		k := i*s12.Len()/3 + 7
 		r.Sample(map[string]string{"element": "Fp12 slots " + s12.Ops[k].Name, "packed": s12.Ops[k].V.Text(16)})
